@@ -101,6 +101,7 @@ class Cutter:
         self.cut = cut_ordinals      # set of loop ordinals (pre-order, source order) to cut
         self.abstract = set(abstract)   # loops replaced by havoc + assumed invariant: their BODY IS NOT VERIFIED (reported as an assumption)
         self.nloops = 0
+        self.decls = {}
 
     def abstract_loop(self, node, k):
         mods = sorted(m for m in modified(node.body) | ({node.target.id} if isinstance(node, ast.For) and isinstance(node.target, ast.Name) else set()) if not m.startswith('__'))
@@ -138,7 +139,11 @@ class Cutter:
         return out
 
     def _havocs(self, k, mods):
-        return ''.join("if '%s' in locals(): %s = __vc.havoc(%d, '%s', locals())\n" % (m, m, k, m) for m in mods)
+        # a variable the sidecar declares is given its declared kind even if it is not bound before the loop
+        forced = set(self.decls.get(k, ()))
+        mods = sorted(set(mods) | forced)
+        return ''.join(("%s = __vc.havoc(%d, '%s', locals())\n" % (m, k, m)) if m in forced else
+                       ("if '%s' in locals(): %s = __vc.havoc(%d, '%s', locals())\n" % (m, m, k, m)) for m in mods)
 
     def cut_for(self, node, k):
         if _has_break(node.body) and not any(isinstance(n, (ast.For, ast.While)) for s in node.body for n in ast.walk(s)):
@@ -303,11 +308,11 @@ class VC:
             C().oblige('%s:loop%d:establish:%s' % (self.fname, k, nm), self.ev(inv, env), 'inv')
 
     def havoc(self, k, name, env):
-        v = env[name]
         c = C()
         decl = self.loops[k].get('decl', {})
         if name in decl:
             return decl[name](self._env(env))
+        v = env[name]
         if isinstance(v, SArr):
             return v.fresh_like(name)
         if isinstance(v, bool) or isinstance(v, SBool):
@@ -369,7 +374,9 @@ def build(path, qualname, loops, namespace, keep_decorators=False):
     if fd.body and isinstance(fd.body[0], ast.Expr) and isinstance(fd.body[0].value, ast.Constant) and isinstance(fd.body[0].value.value, str):
         fd.body = fd.body[1:] or [ast.Pass()]
     fd = CompRewriter().visit(fd)
+    _decls = {k: list(v.get('decl', {})) for k, v in loops.items()}
     cutter = Cutter(set(k for k in loops if not loops[k].get('abstract')), abstract=[k for k in loops if loops[k].get('abstract')])
+    cutter.decls = _decls
     fd.body = cutter.rewrite(fd.body)
     missing = [k for k in loops if k >= cutter.nloops]
     if missing:
